@@ -5,7 +5,12 @@ import abbr_gen as g
 from markup_util import run_cases
 
 CONFIGS = [{}, {'syntax': 'xml'}, {'options': {'output.selfClosingStyle': 'xhtml'}},
-           {'options': {'output.format': False}}, {'syntax': 'xml', 'options': {'output.format': False}}]
+           {'options': {'output.format': False}}, {'syntax': 'xml', 'options': {'output.format': False}},
+           {'cache': {}}, {'cache': {}, 'options': {'output.selfClosingStyle': 'xhtml'}}]
+
+
+def writes_self_closed_leaves(cfg):
+    return cfg.get('syntax') == 'xml' or (cfg.get('options') or {}).get('output.selfClosingStyle') in ('xhtml', 'xml')
 
 
 def oracle(abbr, cfg, meta, r):
@@ -55,6 +60,21 @@ def gen(ctx):
                 add([(g.El(name=p), '>'), (child, '')], cfg)
                 add([(g.El(name=p), '>'), (g.El(name=None, repeat=2, **deco), '>'), (g.El(name=None, **deco), '')], cfg)
     add([(g.El(name=None, classes=['top']), '')], {})
+    # snippet-backed names (one element of the same name) and the `/` mark, as parents and used twice
+    from emmet.markup.implicit_tag import ELEMENT_MAP
+    snips = [s for s in g.same_name_snippets() if s[0] not in ELEMENT_MAP or s[0] in g.IMPLICIT_DOC]
+    ctx.cov['same_name_snippets'] = len(snips)
+    pick = [s for s in snips if s[0] in ('a', 'img', 'br', 'input', 'select', 'label', 'option', 'hr', 'form', 'button', 'link')] or snips[:8]
+    for nm, void in pick + [(n, None) for n in names[:3]]:
+        for cfg in CONFIGS:
+            sc = void is None
+            add([(g.El(name=nm, self_close=sc), '>'), (g.El(name='p'), '')], cfg)
+            add([(g.El(name='ul'), '>'), (g.El(name='li', repeat=2), '>'), (g.El(name=nm, self_close=sc), '>'), (g.El(name='span'), '')], cfg)
+            add([(g.Group([(g.El(name='div'), '>'), (g.El(name=nm, self_close=sc), '>'), (g.El(name='b'), '')], repeat=2), '+'), (g.El(name='i'), '')], cfg)
+            add([(g.El(name='div'), '>'), (g.El(name=nm, self_close=sc), '>'), (g.El(name='b'), '^'), (g.El(name=nm, self_close=sc), '>'), (g.El(name='i'), '')], cfg)
+            add([(g.El(name=nm, repeat=2), '>'), (g.El(name=nm), '>'), (g.El(name='u'), '')], cfg)
+            if writes_self_closed_leaves(cfg) and (void or sc):
+                add([(g.El(name='div'), '>'), (g.El(name=nm, self_close=sc), '+'), (g.El(name='p'), '>'), (g.El(name=nm, self_close=sc), '')], cfg)
     # random large statements
     n_rand = 1500 if ctx.tier == 'quick' else 40000
 
@@ -66,17 +86,22 @@ def gen(ctx):
         if rng.random() < 0.1:
             el.id = 'z'
     for _ in range(n_rand):
-        st = g.rand_stmt(rng, names, rng.randint(1, 40 if rng.random() < 0.2 else 10), max_depth=4, decorate=decorate)
+        cfg = rng.choice(CONFIGS)
+        leafy = writes_self_closed_leaves(cfg)
+        pool = names + [s[0] for s in snips if leafy or not s[1]] if rng.random() < 0.4 else names
+        st = g.rand_stmt(rng, pool, rng.randint(1, 40 if rng.random() < 0.2 else 10), max_depth=4, decorate=decorate)
         if g.total_copies(g.unroll(g.denote_stmt(st))) > 400:
             continue
-        add(st, rng.choice(CONFIGS))
+        g.mark_self_close(st, rng, leafy)
+        add(st, cfg)
     return cases
 
 
 def run(ctx):
-    ok = ctx.build(['props/C01.vo', 'run/MarkupRun.vo'])
+    ok = ctx.build(['props/C01.vo', 'props/C01String.vo', 'run/MarkupRun.vo'])
     if ok:
         ctx.obligations('props/C01.v')
+        ctx.obligations('props/C01String.v')
     model = ctx.model('markup') if ok else None
     ctx.cov['rule'] = ('statements generated from an AST (elements, > + ^ groups, *N, nameless elements), rendered to text; '
                        'exhaustive operator skeletons up to the stated size, implicit-name table, random large statements; '
